@@ -199,6 +199,38 @@ def rule_blockgate(prog, rep):
         rep.instance("C09.BLOCKGATE", "can_be_block_string: result is `common_indent == 0`")
     else:
         rep.finding("C09.BLOCKGATE", cb.name, "common-indent", "can_be_block_string no longer requires zero common indentation", cb.loc())
+    # (c') which lines take part in the minimum: BlockStringValue() ignores WhiteSpace-only lines
+    # when it computes the common indentation, so the gate must ignore them too (otherwise an
+    # indented text with an empty line in it is printed as a block string and loses its indent).
+    # Read on MIR: min(<per-line iterator>); the per-line closure must yield no value for a line
+    # that is empty after trimming.
+    from ..flow import _strip as _st
+    from ..tables import enum_paths as _ep, return_value_on_path as _rv
+    mins = [c for c in cb.live_calls() if re.search(r"Iterator::min$|Iterator>::min$", c.name)]
+    judged = False
+    for c in mins:
+        chain = cb.sym(c.args[0])
+        mm = re.match(r"^Iterator::(filter_map|map)\((.*), closure:([^,()]+\{closure#\d+\})\)$", chain)
+        if not mm or mm.group(3) not in prog.fns:
+            continue
+        judged = True
+        clo = prog.fns[mm.group(3)]
+        rows = [(_st(a), _rv(clo, pth) or "") for a, _r, pth in _ep(clo)]
+        if mm.group(1) == "map":
+            rep.finding("C09.BLOCKGATE", cb.name, "blank-lines-counted", "the common indentation is the minimum over *every* line (`map`): a WhiteSpace-only line counts as indentation 0, so an indented text with an empty line in it passes the gate, is printed as a block string, and loses its indentation when parsed", c.loc())
+            continue
+        somes = [(a, v) for a, v in rows if v.startswith("Option::Some{")]
+        nones = [(a, v) for a, v in rows if v.startswith("Option::None")]
+        def blank(a, val):
+            return any(f[0] == "callbool" and f[1].endswith("str>::is_empty") and f[3] is val and trimmer.name.split("::")[-1] in str(f[2]) for f in a)
+        ok = bool(somes) and bool(nones) and all(blank(a, False) for a, _v in somes) and all(blank(a, True) for a, _v in nones)
+        ok = ok and all(re.search(r"^Option::Some\{Sub\(str::len\(&?arg2\), str::len\(&?\*?[\w:]*%s\(&?arg2\)\)\)(\.0)?\}$" % re.escape(trimmer.name.split("::")[-1]), v) for _a, v in somes)
+        if ok:
+            rep.instance("C09.BLOCKGATE", "common indentation: minimum of len(line) - len(trimmed line) over the lines that are not WhiteSpace-only")
+        else:
+            rep.finding("C09.BLOCKGATE", cb.name, "indent-of-line", "the per-line indentation closure is %s; expected: None for a WhiteSpace-only line, Some(len(line) - len(trimmed)) otherwise" % [(a, v[:80]) for a, v in rows][:3], clo.loc())
+    if not judged:
+        rep.note("C09.BLOCKGATE: the common indentation is not computed by min() over a map/filter_map closure; lines taking part in it not judged")
     ev = Evaluator(prog, "apollo_compiler")
     tw = prog.hir_body(trimmer)["body"]
     arrs = [n for n in walk(tw) if n.get("k") == "array"]
